@@ -11,6 +11,11 @@ import time
 VERIF = os.path.dirname(os.path.dirname(os.path.abspath(__file__)))
 EVIDENCE_DIR = os.path.join(VERIF, 'evidence')
 REPLAY_DIR = os.path.join(VERIF, 'replays')
+if os.environ.get('ODML_REPO', '/repo') != '/repo':
+    # a run against a scratch copy of the repository (seeded-change self test) must not overwrite the
+    # evidence of the real tree
+    EVIDENCE_DIR = os.path.join(VERIF, '.work', 'scratch_evidence')
+    REPLAY_DIR = os.path.join(VERIF, '.work', 'scratch_replays')
 KNOWN_FILE = os.path.join(VERIF, 'known_findings.json')
 BASELINE_FILE = os.path.join(VERIF, 'baseline_obligations.json')
 
